@@ -275,6 +275,38 @@ impl<'tcx> Cx<'tcx> {
                         kv.push(("adt", esc(&self.path(ad.did()))));
                     }
                 }
+                // `&Enum::UnitVariant` promoted out of a (generic) function: read the variant off the promoted body
+                if let mir::Const::Unevaluated(uv, _) = c.const_ {
+                    if let (Some(pidx), ty::Ref(_, inner, _)) = (uv.promoted, cty.kind()) {
+                        if let ty::Adt(ad, _) = inner.kind() {
+                            if ad.is_enum() && ad.is_payloadfree() {
+                                let proms = tcx.promoted_mir(uv.def);
+                                if let Some(pb) = proms.get(pidx) {
+                                    let mut found: Option<(String, u128)> = None;
+                                    let mut n_aggs = 0;
+                                    for bbd in pb.basic_blocks.iter() {
+                                        for st in &bbd.statements {
+                                            if let StatementKind::Assign(box (_, Rvalue::Aggregate(box mir::AggregateKind::Adt(adid, vidx, _, _, _), ops))) = &st.kind {
+                                                if *adid == ad.did() && ops.is_empty() {
+                                                    n_aggs += 1;
+                                                    let dv = ad.discriminant_for_variant(tcx, *vidx).val;
+                                                    found = Some((ad.variant(*vidx).name.to_string(), dv));
+                                                }
+                                            }
+                                        }
+                                    }
+                                    if n_aggs == 1 {
+                                        if let Some((name, dv)) = found {
+                                            kv.push(("ref_enumv", esc(&name)));
+                                            kv.push(("ref_v", esc(&format!("{}", dv))));
+                                            kv.push(("ref_adt", esc(&self.path(ad.did()))));
+                                        }
+                                    }
+                                }
+                            }
+                        }
+                    }
+                }
                 kv.push(("dbg", esc(&format!("{:?}", c.const_).chars().take(120).collect::<String>())));
             }
         }
